@@ -30,6 +30,15 @@ type Trace struct {
 	MaxStack   int
 	OpSuccess  int // tapscript ended by OP_SUCCESSx
 	Path       string
+
+	// Capture asks EvalScript to record the state reached at the end of the last interpreted script
+	// (used by generators that steer random programs; never by the oracle).
+	Capture       bool
+	LastStack     [][]byte
+	LastAltDepth  int
+	LastCondDepth int  // open IF/NOTIF blocks
+	LastExec      bool // whether the innermost position is being executed
+	LastOps       int  // nOpCount
 }
 
 func (t *Trace) path(s string) {
@@ -1100,10 +1109,36 @@ func (c *checker) evalScript(stackp *stackT, script []byte, flags uint32, sv sig
 			c.tr.MaxStack = len(stack) + len(altstack)
 		}
 	}
+	if c.tr != nil && c.tr.Capture {
+		c.tr.LastStack = append([][]byte(nil), stack...)
+		c.tr.LastAltDepth = len(altstack)
+		c.tr.LastCondDepth = len(vfExec)
+		c.tr.LastExec = allTrue()
+		c.tr.LastOps = nOpCount
+	}
 	if len(vfExec) != 0 {
 		return ErrUnbalancedConditional
 	}
 	return ErrOK
+}
+
+// EvalForGenerator interprets one script on the given stack in the given signature version
+// ("base", "witness_v0", "tapscript") against a dummy one-input transaction. It exists for workload
+// generators that want to know the stack a random program prefix leaves behind; tr.Capture is set.
+func EvalForGenerator(stack [][]byte, script []byte, flags uint32, sigver string, tr *Trace) ScriptError {
+	sv := sigBase
+	switch sigver {
+	case "witness_v0":
+		sv = sigWitnessV0
+	case "tapscript":
+		sv = sigTapscript
+	}
+	tx := &reftx.Tx{Version: 2, In: []reftx.TxIn{{Sequence: 0}}, Out: []reftx.TxOut{{}}}
+	tr.Capture = true
+	c := &checker{tx: tx, idx: 0, amount: 0, spent: []reftx.TxOut{{}}, tr: tr}
+	st := stackT(append([][]byte(nil), stack...))
+	ed := execData{weightLeft: 1 << 40, weightLeftInit: true}
+	return c.evalScript(&st, script, flags, sv, &ed)
 }
 
 func b2i(b bool) int64 {
